@@ -19,6 +19,7 @@ RULE = ("per generated dataclass schema (2-5 fields, random defaults, kw_only la
         "faults and non-mapping arguments. Oracle: outcome class and attributes predicted by the reference decoder "
         "(first bad field in declaration order, injected object identity, holder class, exact extra-key set); "
         "swallowed NameError monitor; input snapshot. distinct_nontrivial = distinct (schema shape, fault) pairs.")
+RULE += " Additions: explicit null for every member; nested structural faults (dropped key of a nested mapping, nested list cut short); both the class's own method and the codec."
 ASSUMPTIONS = [
     "validity of a corrupted input is decided by the reference decoder (vfw/ref.py)",
     "junk pool is finite; non-JSON junk (tuple, bytes, object()) included",
